@@ -26,7 +26,7 @@ type EdgeRule struct {
 	WeightOK bool
 	// when the edge is added inside a private helper between the helper's parameters, Call/Fn are the helper's call
 	// site (one rule per site); Inner is the AddEdge call itself
-	Inner ssa.CallInstruction
+	Inner    ssa.CallInstruction
 	Reweight bool // re-weights an existing edge (endpoints = element of InEdges(x), x)
 	Class    string
 	Lits     []core.Lit
